@@ -1161,6 +1161,35 @@ func c06EmptyDynDuplicates(j *c06Judge) {
 			})
 		}
 	}
+	// members unmarked at the top with a mark inside, through the ValueSet API (SetVal hoists such marks; ValueSet must refuse
+	// the member or keep the set free of marks and duplicates — a seeded change made Hash() look at the top level only)
+	for _, inner := range []cty.Value{cty.StringVal("alice").Mark("secret"), cty.NumberIntVal(1).Mark("m"), cty.True.Mark("m")} {
+		for _, m := range []cty.Value{
+			cty.ObjectVal(map[string]cty.Value{"name": inner}),
+			cty.TupleVal([]cty.Value{inner, cty.Zero}),
+			cty.ListVal([]cty.Value{inner}),
+			cty.MapVal(map[string]cty.Value{"k": inner}),
+			cty.ObjectVal(map[string]cty.Value{"o": cty.TupleVal([]cty.Value{inner})}),
+		} {
+			m := m
+			j.produce("SetValFromValueSet/member-with-nested-mark", c06Lit("ValueSet.Add x2", m), func() cty.Value {
+				s := cty.NewValueSet(m.Type())
+				s.Add(m)
+				s.Add(m)
+				return cty.SetValFromValueSet(s)
+			})
+			j.produce("AsValueSet/members-with-nested-marks", c06Lit("ListVal.AsValueSet", m, m), func() cty.Value {
+				return cty.SetValFromValueSet(cty.ListVal([]cty.Value{m, m}).AsValueSet())
+			})
+			j.produce("ValueSet.Union/member-with-nested-mark", c06Lit("ValueSet.Union", m), func() cty.Value {
+				a := cty.NewValueSet(m.Type())
+				a.Add(m)
+				b := cty.NewValueSet(m.Type())
+				b.Add(m)
+				return cty.SetValFromValueSet(a.Union(b))
+			})
+		}
+	}
 	for _, src := range []string{`[[],[]]`, `[[],[],[]]`, `[{"deps":[]},{"deps":[]}]`} {
 		src := src
 		for _, ty := range []cty.Type{cty.Set(cty.List(cty.DynamicPseudoType)), cty.Set(cty.Object(map[string]cty.Type{"deps": cty.List(cty.DynamicPseudoType)}))} {
